@@ -9,7 +9,7 @@
 From Coq Require Import List ZArith Arith Bool Permutation.
 Import ListNotations.
 From Coq Require Import Sorted.
-From TV Require Import Lib.Obs C35.Model C35.Run C35.ProofsBase C35.ProofsSim C35.ProofsGhost C35.Proofs C35.ProofsJoin C35.ProofsRef C35.ProofsTop.
+From TV Require Import Lib.Obs C35.Model C35.Run C35.ProofsBase C35.ProofsSim C35.ProofsGhost C35.Proofs C35.ProofsJoin C35.ProofsRef C35.ProofsTop C35.ProofsP4 C35.ProofsP4b.
 
 (* REF. For every class, maxsize and schedule of put / put_nowait / get /
    get_nowait / task_done / join / timer expiry / cancellation / loop drain, the
@@ -248,3 +248,47 @@ Theorem C35_reachable_waiter_ids_exist :
     Forall (fun p => pkey p < length (sfuts t)) (sputters t).
 Proof. exact reach_ids_fresh. Qed.
 Print Assumptions C35_reachable_waiter_ids_exist.
+
+(* ---- phase 4: accounting of admitted items against successful puts ----
+   pnow_run kd m ops i_init : the items x of the schedule's PutNowait x operations that returned None
+   putitems fs              : the items of put() futures that resolved with None
+   g_now / resitems         : items returned by get_nowait() / held by resolved get() (and async-iteration) futures *)
+
+(* for every class, maxsize and schedule: the multiset of items ever admitted to
+   the container is exactly the multiset of items whose put_nowait returned None
+   or whose put() future resolved None *)
+Theorem C35_admitted_items_are_the_successful_puts :
+  forall kd m ops,
+    let s := ireach kd m ops in
+    Permutation (g_enq (igh s)) (pnow_run kd m ops i_init ++ putitems (ifuts s)).
+Proof. exact admitted_are_successful_puts. Qed.
+Print Assumptions C35_admitted_items_are_the_successful_puts.
+
+(* ... and successful puts = items delivered (get_nowait, get, async iteration)
+   + items still queued: no item is lost, duplicated or invented *)
+Theorem C35_no_item_lost_duplicated_or_invented :
+  forall kd m ops,
+    let s := ireach kd m ops in
+    Permutation (pnow_run kd m ops i_init ++ putitems (ifuts s))
+                (g_now (igh s) ++ resitems (ifuts s) ++ iq s).
+Proof. exact no_item_lost_duplicated_or_invented. Qed.
+Print Assumptions C35_no_item_lost_duplicated_or_invented.
+
+(* a pending, timed-out or cancelled future counts neither as a successful put
+   nor as a delivered item ... *)
+Theorem C35_unresolved_future_counts_nothing :
+  forall f, fstat f = Pending \/ fstat f = Ready \/ fstat f = TimedOut \/ fstat f = Cancelled ->
+    pitem_of f = [] /\ item_of f = [].
+Proof. exact unresolved_future_counts_nothing. Qed.
+Print Assumptions C35_unresolved_future_counts_nothing.
+
+(* ... and outcomes are final: once a future is done (resolved, timed out,
+   cancelled) no continuation of the schedule changes it.  So a cancelled or
+   timed-out put is never admitted later and a cancelled or timed-out get never
+   consumes an item. *)
+Theorem C35_future_outcome_is_final :
+  forall kd m ops1 ops2 k st,
+    stat (ifuts (ireach kd m ops1)) k = Some st -> donest st ->
+    stat (ifuts (ireach kd m (ops1 ++ ops2))) k = Some st.
+Proof. exact outcome_final. Qed.
+Print Assumptions C35_future_outcome_is_final.
